@@ -18,15 +18,23 @@ Open Scope string_scope.
 Open Scope Z_scope.
 Open Scope list_scope.
 
-(* indexed view of a long byte list: chunks of 64 *)
-Fixpoint chunks_fuel (fuel : nat) (d : list Z) : list (list Z) :=
+(* indexed view of a long byte list: 64-element chunks in 64-chunk groups, so that one access
+   costs about 64 + 64 + len/4096 list steps *)
+Fixpoint chunk_fuel {A} (fuel : nat) (d : list A) : list (list A) :=
   match fuel with
   | O => []
-  | Datatypes.S f => match d with [] => [] | _ => firstn 64 d :: chunks_fuel f (skipn 64 d) end
+  | Datatypes.S f => match d with [] => [] | _ => firstn 64 d :: chunk_fuel f (skipn 64 d) end
   end.
-Definition chunks (d : list Z) : list (list Z) := chunks_fuel (List.length d) d.
-Definition cget (ch : list (list Z)) (i : Z) : Z :=
-  if i <? 0 then 0 else nth (Z.to_nat (Z.land i 63)) (nth (Z.to_nat (Z.shiftr i 6)) ch []) 0.
+Definition chunk {A} (d : list A) : list (list A) := chunk_fuel (List.length d) d.
+Definition chunks (d : list Z) : list (list (list Z)) := chunk (chunk d).
+Definition cget (ch : list (list (list Z))) (i : Z) : Z :=
+  if i <? 0 then 0
+  else nth (Z.to_nat (Z.land i 63))
+           (nth (Z.to_nat (Z.land (Z.shiftr i 6) 63)) (nth (Z.to_nat (Z.shiftr i 12)) ch []) []) 0.
+
+(* pixel (c, r) of a mono buffer with wib bytes per row, through the indexed view (c, r >= 0) *)
+Definition fpx (ch : list (list (list Z))) (wib : Z) : pix :=
+  fun c r => Z.testbit (cget ch (r * wib + c / 8)) (7 - c mod 8).
 
 (* an observed image: width, height, 4 bytes per pixel, row-major *)
 Record oimg := mkO { ow : Z; oh : Z; opix : list Z }.
@@ -55,19 +63,20 @@ Definition run_mono (W H : Z) (data : list Z) (pc bc : Z) (obs : list sexp) : se
     match dec_img oF, dec_img oT with
     | Some iF, Some iT =>
       let wib := (W + 7) / 8 in
+      let pbuf := fpx (chunks buf) wib in
       let m0 := create_from_bytes W H data in
       let m := set_bckg_color (set_pixel_color (fst m0) pc) bc in
       (* --- the property, judged on the implementation's outputs --- *)
       if negb (bytes_ok buf && bytes_ok rgb && bytes_ok gray && (wib * H <=? zlen buf)) then spec "c17-shape" 0 0
       else if ((0 <=? pc) && (pc <? 64) && negb (pix16 =? rgb565_of_6bit pc)) || ((0 <=? bc) && (bc <? 64) && negb (bg16 =? rgb565_of_6bit bc))
       then spec "c17-colour565" pc bc
-      else if negb (rgb_export_ok W H wib buf pix16 bg16 rgb) then spec "c17-rgb-export" W H
-      else if (W mod 2 =? 0) && negb (gray_export_ok W H wib buf pix16 bg16 gray) then spec "c17-gray-export" W H
+      else if negb (rgb_export_ok_p W H pbuf pix16 bg16 (zlen rgb) (cget (chunks rgb))) then spec "c17-rgb-export" W H
+      else if (W mod 2 =? 0) && negb (gray_export_ok_p W H pbuf pix16 bg16 (zlen gray) (cget (chunks gray))) then spec "c17-gray-export" W H
       else if negb (oimg_shape_ok iF && oimg_shape_ok iT && (ow iF =? W) && (oh iF =? H) && (ow iT =? W) && (oh iT =? H))
       then spec "c17-image-size" W H
-      else if negb ((bw1 =? W) && (bh1 =? H) && (zlen back1 =? wib * H) && visible_equal W H wib buf back1 false)
+      else if negb ((bw1 =? W) && (bh1 =? H) && (zlen back1 =? wib * H) && visible_equal_p W H pbuf (fpx (chunks back1) wib) false)
       then spec "c17-roundtrip" W H
-      else if negb ((bw2 =? W) && (bh2 =? H) && (zlen back2 =? wib * H) && visible_equal W H wib buf back2 true)
+      else if negb ((bw2 =? W) && (bh2 =? H) && (zlen back2 =? wib * H) && visible_equal_p W H pbuf (fpx (chunks back2) wib) true)
       then spec "c17-roundtrip-inverted" W H
       (* --- model vs implementation --- *)
       else if negb (Bool.eqb (snd m0) (negb (ok =? 0)) && bytes_eqb (idata m) buf) then mism "create_from_bytes"
@@ -108,7 +117,7 @@ Definition run_gfx (ty W H : Z) (data : list Z) (tw th : Z) (obs : list sexp) : 
     | Some d =>
       (* direct rendering: declared canvas size, expansion at covered pixels *)
       if negb (oimg_shape_ok d && (ow d =? tw) && (oh d =? th)) then spec "c17-declared-size-direct" tw th
-      else if negb (expansion_ok ty W H data (fun x y => if r_in tw th (x + ox) (y + oy) then oacc d (x + ox) (y + oy) else expansion ty W data x y))
+      else if negb (expansion_ok_p ty W H len get (let ad := oacc d in fun x y => if r_in tw th (x + ox) (y + oy) then ad (x + ox) (y + oy) else expansion_p ty W get x y))
       then spec "c17-expansion-direct" W H
       else
         let mdirect := tabulate tw th (rwp_at len get ty W H tw th) in
@@ -118,14 +127,20 @@ Definition run_gfx (ty W H : Z) (data : list Z) (tw th : Z) (obs : list sexp) : 
             if negb (oimg_shape_ok p && (ow p =? W) && (oh p =? H)) then spec ("c17-declared-size-" ++ what) W H
             else
               let short_mono := (ty =? 0) && (len <? (W + 7) / 8 * H) in
-              if negb (expansion_ok ty W H data (oacc p)) then
+              let ap := oacc p in
+              if negb (expansion_ok_p ty W H len get ap) then
                 (if short_mono && all_black p then spec "c17-mono-short-data-discarded" W len else spec ("c17-expansion-" ++ what) W H)
-              else if negb (agree_ok ty W H len tw th ox oy (oacc d) (oacc p)) then
+              else if negb (agree_ok ty W H len tw th ox oy (oacc d) ap) then
                 (if short_mono && all_black p then spec "c17-mono-short-data-discarded" W len else spec ("c17-agree-" ++ what) W H)
               else k p
           | None => spec "c17-panic" W H
           end in
-        let model_png := tabulate W H (gfx_state_at (mkGfx ty W H data)) in
+        (* gfx_state_at (mkGfx ty W H data), read through indexed views of the data *)
+        let model_png :=
+          if ty =? 0 then
+            let i := fst (create_from_bytes W H (pad_mono W H data)) in
+            tabulate W H (to_image_at (cget (chunks (idata i))) true W H (gwib (ig i)))
+          else tabulate W H (img_from_at len get ty W H) in
         let check_model (p : option oimg) (c : option oimg) : sexp :=
           if negb (bytes_eqb mdirect (opix d)) then mism "rwp_to_image"
           else match p with
